@@ -296,24 +296,45 @@ impl<'a> Comb<'a> {
     pub fn push(&mut self, resource: Option<Oid>, signer: &Device<MockSigner>, actions: Vec<Vec<u8>>, embeds: Vec<cob::Embed<Oid>>, applied: bool) -> Oid {
         let contents = NonEmpty::from_vec(actions).expect("actions");
         let n = self.written.len();
+        // The new id must fall on the required side of its already written siblings. Taking any
+        // such id would halve the remaining id space at every sibling (and the expected number of
+        // attempts would diverge), so a small batch is written and the admissible id closest to the
+        // siblings is kept.
+        let at_root = self.tip == self.root;
+        let batch = if self.siblings.is_empty() { 1 } else { 6 };
         let mut salt = 0u32;
+        let mut best: Option<Oid> = None;
         let id = loop {
-            let entry = self
-                .repo
-                .store(
-                    resource,
-                    vec![],
-                    signer,
-                    cob::change::Template { type_name: self.type_name.clone(), tips: vec![self.tip], message: format!("op {n} salt {salt}"), embeds: embeds.clone(), contents: contents.clone() },
-                )
-                .expect("store change");
-            self.salt_attempts += 1;
-            let ok = if self.tip == self.root { self.siblings.iter().all(|s| entry.id < *s) } else { self.siblings.iter().all(|s| entry.id > *s) };
-            if ok {
-                break entry.id;
+            for _ in 0..batch {
+                let entry = self
+                    .repo
+                    .store(
+                        resource,
+                        vec![],
+                        signer,
+                        cob::change::Template { type_name: self.type_name.clone(), tips: vec![self.tip], message: format!("op {n} salt {salt}"), embeds: embeds.clone(), contents: contents.clone() },
+                    )
+                    .expect("store change");
+                self.salt_attempts += 1;
+                salt += 1;
+                let ok = if at_root { self.siblings.iter().all(|s| entry.id < *s) } else { self.siblings.iter().all(|s| entry.id > *s) };
+                if ok {
+                    best = Some(match best {
+                        None => entry.id,
+                        Some(b) => {
+                            if at_root {
+                                b.max(entry.id)
+                            } else {
+                                b.min(entry.id)
+                            }
+                        }
+                    });
+                }
             }
-            salt += 1;
-            if salt > 100_000 {
+            if let Some(b) = best {
+                break b;
+            }
+            if salt > 500_000 {
                 panic!("comb: salt search did not converge");
             }
         };
